@@ -185,7 +185,9 @@ class Unsigned(BitVector):
 
         if isinstance(rhs, int):
             rhs = -(rhs % 2**self.width)
-
+        elif isinstance(rhs, Unsigned):
+            # negate at the width of the result, not at the width of rhs
+            rhs = -rhs.resize(max(self.width, rhs.width, target_width or 0))
         else:
             rhs = -rhs
 
